@@ -27,6 +27,8 @@
 -/
 import Pakhi.Props.C02
 import Pakhi.Lemmas.FrameInv
+import Pakhi.Lemmas.OutFrame
+import Pakhi.Lemmas.Relabel5
 
 namespace Pakhi
 namespace C19
@@ -136,6 +138,44 @@ theorem stray_else_observes_flag_residue :
     (match endOf strayP2 with | .err e => e.msg == "else-without-if".toList | _ => false) = true ∧
     (match endOf strayP1 with | .ok s => s.out.length == 2 | _ => false) = true ∧
     (match endOf (strayP1 ++ strayP2) with | .ok s => s.out.length == 4 | _ => false) = true := by decide
+
+/-- **what the earlier fragment printed cannot influence the later one**: running the rest of a program with P1's output `b` already
+    written gives exactly the run without it, with `b` underneath — so the text a fragment adds is the text it prints on its own
+    (the output half of the compose statement; states equal otherwise) -/
+theorem earlier_output_is_invisible (prog : List Stmt) (b : List Out) (g : GcMode) (f k : Nat) (cur : List Stmt) (s : St) :
+    runLoop prog g f k cur (s.under b) = (runLoop prog g f k cur s).under (·.under b) b :=
+  runLoop_under prog b g f k cur s
+
+/-- moving code `n` lines down -/
+def shiftBy (n : Nat) : Meta → Meta := fun m => ⟨m.line + n, m.file⟩
+
+/-- **a fragment does not depend on where in the file it stands**: the same code written `n` lines further down (after a P1 of `n`
+    lines) runs identically — same statements executed, same values, heap, output, collections, fuel — and a located error is the same
+    error with its line shifted by `n` (the "error lines shifted by the length of P1" clause) -/
+theorem moved_fragment_same_run (n : Nat) (prog : List Stmt) (g : GcMode) (f k : Nat) (cur : List Stmt) (s : St) :
+    runLoop (relL (shiftBy n) prog) g f k (relL (shiftBy n) cur) (relSt (shiftBy n) s) =
+      (runLoop prog g f k cur s).rel (shiftBy n) (relSt (shiftBy n)) :=
+  runLoop_relabel (shiftBy n) prog g f k cur s
+
+/-- … spelled out for the error case -/
+theorem moved_fragment_error_line (n : Nat) (prog : List Stmt) (g : GcMode) (f : Nat) (w : World) (e : PErr)
+    (h : runLoop prog g f 0 prog (St.init w) = .err e) (hc : e.cls ≠ .unexpected) :
+    runLoop (relL (shiftBy n) prog) g f 0 (relL (shiftBy n) prog) (St.init w) = .err { e with line := e.line + n } := by
+  have hr := moved_fragment_same_run n prog g f 0 prog (St.init w)
+  rw [h, show relSt (shiftBy n) (St.init w) = St.init w from rfl] at hr
+  rw [hr]
+  have hcls : (e.cls == ErrClass.unexpected) = false := by
+    cases hcl : e.cls <;> first | rfl | exact absurd hcl hc
+  simp [Res.rel, relErr, hcls, shiftBy]
+
+/-- … and for a normal end: same output, variables and heap -/
+theorem moved_fragment_normal_end (n : Nat) (prog : List Stmt) (g : GcMode) (f : Nat) (w : World) (s' : St)
+    (h : runLoop prog g f 0 prog (St.init w) = .ok s') :
+    ∃ t, runLoop (relL (shiftBy n) prog) g f 0 (relL (shiftBy n) prog) (St.init w) = .ok t ∧
+      t.out = s'.out ∧ t.scopes = s'.scopes ∧ t.heap = s'.heap ∧ t.flags = s'.flags ∧ t.world = s'.world := by
+  have hr := moved_fragment_same_run n prog g f 0 prog (St.init w)
+  rw [h, show relSt (shiftBy n) (St.init w) = St.init w from rfl] at hr
+  exact ⟨_, hr, rfl, rfl, rfl, rfl, rfl⟩
 
 end C19
 end Pakhi
